@@ -136,11 +136,13 @@ class _RoutingFlowControl:
 
     async def _resume_sending(self) -> None:
         """Reset ready flag after wait_time_ms and fade out slowduration."""
-        random_wait_extension = (
+        await asyncio.sleep(self._wait_time_ms / 1000)
+        # N as of the end of the wait time - RoutingBusy frames covered by the
+        # running pause are counted without restarting this timer
+        await asyncio.sleep(
             random.random() * self._received_busy_frames * BUSY_RANDOM_TIME_FACTOR
         )
         slowduration = self._received_busy_frames * BUSY_SLOWDURATION_TIME_FACTOR
-        await asyncio.sleep(self._wait_time_ms / 1000 + random_wait_extension)
 
         self._ready.set()
         self._wait_start_time = None
